@@ -450,6 +450,22 @@ removal:
 			c.Fail("remove", "remove:newpmt_error", err, nil)
 			return
 		}
+		// query first (an implementation may cache what it answered), then remove, then query again
+		okb := c.Call("pmt.PIDExists(before)", func() {
+			for _, e := range s.PMT.Streams {
+				if !pm.PIDExists(e.PID) {
+					c.Fail("remove", "remove:pid_missing_before_removal", e.PID, "present")
+				}
+			}
+			for _, p := range s.Remove {
+				pm.PIDExists(p)
+			}
+			pm.Pids()
+			pm.ElementaryStreams()
+		})
+		if !okb || c.Failed() {
+			return
+		}
 		rm := append([]int(nil), s.Remove...)
 		if !c.Call("pmt.RemoveElementaryStreams", func() { pm.RemoveElementaryStreams(rm) }) {
 			return
